@@ -39,6 +39,7 @@ type Obligation struct {
 }
 
 type Engine struct {
+	drifted map[string]string // function -> why its contract no longer fits its shape (undischarged obligations are then undecided, not violations)
 	repo    string
 	fset    *token.FileSet
 	prog    *ssa.Program
@@ -680,7 +681,14 @@ func (e *Engine) VerifyFunc(key string) {
 		if n > len(fc.loopLst) {
 			// a loop clause without a loop is unused text: the postconditions are still proved from what the
 			// function does now (for instance a loop replaced by a library call that has a contract)
-			e.note(fmt.Sprintf("%s: contract has a clause for loop %d, function has %d loops; the clause is unused", shortKey(key), n, len(fc.loopLst)))
+			why := fmt.Sprintf("contract has a clause for loop %d, function has %d loops", n, len(fc.loopLst))
+			e.note(fmt.Sprintf("%s: %s; the clause is unused", shortKey(key), why))
+			e.mu.Lock()
+			if e.drifted == nil {
+				e.drifted = map[string]string{}
+			}
+			e.drifted[shortKey(key)] = why
+			e.mu.Unlock()
 			continue
 		}
 		if n < 1 {
